@@ -312,7 +312,7 @@ var pureStringsFuncs = map[string]string{} // smt name -> declaration
 var pureStringsMu sync.Mutex
 
 func pureStringsModel(key string, sig *types.Signature, U *Universe) *libModel {
-	if !strings.HasPrefix(key, "strings.") || strings.Contains(key, "(") || sig == nil || sig.Recv() != nil || sig.Variadic() {
+	if !(strings.HasPrefix(key, "strings.") || strings.HasPrefix(key, "strconv.")) || strings.Contains(key, "(") || sig == nil || sig.Recv() != nil || sig.Variadic() {
 		return nil
 	}
 	basic := func(t types.Type) bool {
@@ -370,6 +370,9 @@ const libPrelude = `; ---- assumed library vocabulary (A5)
 (declare-fun strings.TrimLeft (Str Str) Str)
 (declare-fun strings.TrimLeft.idx (Str Str) Int)
 (assert (forall ((s Str) (c Str)) (! (and (<= 0 (strings.TrimLeft.idx s c)) (<= (strings.TrimLeft.idx s c) (Str.len s)) (= (strings.TrimLeft s c) (Str.slice s (strings.TrimLeft.idx s c) (Str.len s)))) :pattern ((strings.TrimLeft s c)))))
+; a one-byte cutset: exactly the leading run of that byte is removed
+(assert (forall ((s Str) (c Str)) (! (=> (= (Str.len c) 1) (and (or (= (strings.TrimLeft.idx s c) (Str.len s)) (not (= (Str.nth s (strings.TrimLeft.idx s c)) (Str.nth c 0))))
+    (forall ((i Int)) (! (=> (and (<= 0 i) (< i (strings.TrimLeft.idx s c))) (= (Str.nth s i) (Str.nth c 0))) :pattern ((Str.nth s i)))))) :pattern ((strings.TrimLeft s c)))))
 (declare-fun strings.ContainsAny (Str Str) Bool)
 (declare-fun strconv.ParseUint.val (Str Int) Int)
 (declare-fun strconv.ParseUint.ok (Str Int) Bool)
